@@ -8,7 +8,11 @@ Definition sD := mkSub true 3325256832 25 2 446.    (* 198.51.100.128/25 weight 
 Definition subs := [sA; sB; sC; sD].
 Definition excl := mkSub true 3221225984 24 0 0.    (* 192.0.2.0/24 *)
 
-Definition cfg1 := mkCfg true true [1; 4] true subs subs [excl] 10000 10000 true.
+Definition cfg1 := mkCfg true true [1; 4] true subs subs [excl] 10000 10000 true [].
+Example cfg1_accepted : cfg_accepted cfg1 = true. Proof. reflexivity. Qed.
+(* a /0 override subnet is fine now (it used to panic), a port above 65535 is refused *)
+Example slash0_wf : wf_subnet (mkSub true 0 0 1 443) = true. Proof. reflexivity. Qed.
+Example big_port_refused : cfg_accepted (mkCfg true true [1; 4] true [] [mkSub true 167837696 24 1 70000] [] 10000 10000 true []) = false. Proof. reflexivity. Qed.
 Example cfg1_wf : wf_cfg cfg1 = true. Proof. reflexivity. Qed.
 
 Definition c_min := mkC2S true true 1 (Some [1]) false 4 1.
